@@ -122,6 +122,10 @@ pub struct RunSpec {
     pub cli_append: Vec<String>,
     /// `--timeout-seconds`
     pub cli_timeout_s: Option<u64>,
+    /// `--cram-compat`: Markdown documents are executed like Cram documents, i.e. all test cases
+    /// of a document in ONE bash script with ONE configuration
+    #[serde(default)]
+    pub cram_compat: bool,
 }
 
 pub const DEFAULT_SKIP_CODE: i32 = 80;
@@ -222,6 +226,8 @@ impl DocEnd {
 pub struct DocModel {
     pub name: String,
     pub format: Format,
+    /// executed as one script (Cram document, or Markdown under `--cram-compat`)
+    pub script: bool,
     pub seq: Vec<TestModel>,
     /// validation class every test case would get if the document ran to completion
     pub base: Vec<Option<Class>>,
@@ -469,7 +475,7 @@ impl DocModel {
         let mut d = self.clone();
         d.end = DocEnd::TimedOut {
             at,
-            attributed: self.format == Format::Markdown,
+            attributed: !self.script,
         };
         d.fails = finalize(&mut d.seq, &self.base, &d.end, at);
         d
@@ -512,6 +518,25 @@ fn model_doc(run: &RunSpec, doc: &DocSpec) -> Result<DocModel, Undecided> {
         .collect();
     let mut base: Vec<Option<Class>> = vec![None; tests.len()];
 
+    let script = doc.format == Format::Cram || run.cram_compat;
+    // script mode: one skip code for the whole script. scrut refuses a script whose test cases
+    // differ in configuration ("inconsistent configuration value"): not modelled
+    let mut script_code = DEFAULT_SKIP_CODE;
+    if script {
+        let codes: Vec<i32> = tests.iter().map(|(_, t)| t.skip_code.or(doc.skip_code).unwrap_or(DEFAULT_SKIP_CODE)).collect();
+        if let Some(first) = codes.first() {
+            if codes.iter().any(|c| c != first) {
+                return Err("test cases of one script with different skip codes".into());
+            }
+            script_code = *first;
+        }
+        if run.cram_compat && tests.iter().any(|(r, _)| *r != Role::Own) {
+            return Err("includes under --cram-compat".into());
+        }
+        if tests.iter().any(|(_, t)| t.detached || t.timeout_ms.is_some()) {
+            return Err("detached test case / per-test timeout in a script".into());
+        }
+    }
     let limit = doc_limit_ms(run, doc);
     let mut elapsed: u64 = 0;
     let mut end = DocEnd::Completed;
@@ -555,7 +580,7 @@ fn model_doc(run: &RunSpec, doc: &DocSpec) -> Result<DocModel, Undecided> {
                 Timing::TimesOut => {
                     end = DocEnd::TimedOut {
                         at: i,
-                        attributed: doc.format == Format::Markdown,
+                        attributed: !script,
                     };
                     ran_upto = i;
                     break;
@@ -566,19 +591,19 @@ fn model_doc(run: &RunSpec, doc: &DocSpec) -> Result<DocModel, Undecided> {
             elapsed += t.sleep_ms;
             base[i] = Some(validation_class(t));
 
-            match doc.format {
-                Format::Markdown => {
+            match script {
+                false => {
                     if t.exit == own_code {
                         end = DocEnd::Skipped { by: i };
                         ran_upto = i;
                         break;
                     }
                 }
-                Format::Cram => {
+                true => {
                     if t.hard_exit {
                         // the script ends here; its exit status is `t.exit`
                         ran_upto = i;
-                        if t.exit == DEFAULT_SKIP_CODE {
+                        if t.exit == script_code {
                             end = DocEnd::Skipped { by: i };
                         } else if let Some(by) = soft_skipper {
                             end = DocEnd::Skipped { by };
@@ -587,7 +612,7 @@ fn model_doc(run: &RunSpec, doc: &DocSpec) -> Result<DocModel, Undecided> {
                         }
                         break;
                     }
-                    if t.exit == DEFAULT_SKIP_CODE && soft_skipper.is_none() {
+                    if t.exit == script_code && soft_skipper.is_none() {
                         soft_skipper = Some(i);
                     }
                 }
@@ -608,6 +633,7 @@ fn model_doc(run: &RunSpec, doc: &DocSpec) -> Result<DocModel, Undecided> {
     Ok(DocModel {
         name: doc.name.clone(),
         format: doc.format,
+        script,
         seq,
         base,
         end,
@@ -628,6 +654,7 @@ mod tests {
             cli_prepend: vec![],
             cli_append: vec![],
             cli_timeout_s: None,
+            cram_compat: false,
         }
     }
 
